@@ -1175,6 +1175,10 @@ func (m *metadataAPI) ResumePartition(streamName string, id int32, recovered boo
 	if err != nil {
 		return nil, err
 	}
+	// Clear the protobuf paused flag set by Pause (used for snapshotting).
+	// Otherwise a snapshot taken after the resume would still record the
+	// partition as paused and it would be re-paused on restore.
+	partition.Paused = false
 	// Update latest pause status change timestamp.
 	partition.pauseTimestamps.update()
 
